@@ -155,6 +155,10 @@ def run(ctx):
             seen[a] = k
     conf = ctx.fn(tables.INS + ".configure_stopping_criterion")
     ctx.ob("R-REG", "C20.3", conf, "unknown stopping criterion and mismatched tolerance count are rejected", sum(isinstance(n, ast.Raise) for n in walk_no_nested(conf.node)) >= 3, "")
+    # a multi-criterion option only terminates as configured if every tolerance stays with its own criterion
+    from .C15 import criteria_pairing
+
+    criteria_pairing(ctx, conf, "C20.3")
     ctx.ob("R-REG", "C20.3", conf, "check_criteria restricted to {'any','all'}", compared_literals(conf.node, "check_criteria") == {"any", "all"}, f"{sorted(compared_literals(conf.node, 'check_criteria'))}")
     iinit = ctx.fn(tables.INS + ".__init__")
     ia = FA(iinit)
